@@ -72,11 +72,20 @@ func genSym(sq []int) func(e *emitter, i int) {
 		}
 		e.run(mSymPowPSD, recv, []opnd{id}, caseSpec{cond: []int{0}})
 		e.run(mSymPowPSD, recv, []opnd{privateLogical(kSym, n, n, 1)}, caseSpec{cond: []int{0}})
-		perm := make([]int, n)
-		for t := range perm {
-			perm[t] = (t*5 + 2) % n // a fixed permutation-like index map (repeats allowed by SubsetSym)
+		// SubsetSym of the receiver itself: EVERY index set in [0,n)^n for
+		// n <= 5 (repeats, sorted with repeats, reversed, constant, ...); for
+		// n == 6 all 46656 in the thorough tier, the hostile classes plus a
+		// sample in the quick tier.
+		forAllIndexSets(n, n, func(set []int, hostile bool) {
+			if n == 6 && !hostile && !e.keep(8) {
+				return
+			}
+			e.run(mSymSubset, recv, []opnd{id}, caseSpec{idx: append([]int(nil), set...)})
+		})
+		for _, set := range indexClasses(n, n) {
+			e.run(mSymSubset, recv, []opnd{privateLogical(kSym, n, n, 1)}, caseSpec{idx: set})
+			e.run(mSymSubset, recv, []opnd{privateLogical(kBasicSym, n, n, 1)}, caseSpec{idx: set})
 		}
-		e.run(mSymSubset, recv, []opnd{id}, caseSpec{idx: perm})
 		// rank updates on the receiver itself
 		e.cross(mSymRankOne, recv, []opnd{id, {}}, caseSpec{}, vslot(1, n, 1))
 		e.cross(mSymRankTwo, recv, []opnd{id, {}, {}}, caseSpec{}, vslot(1, n, 1), vslot(2, n, 2))
@@ -110,11 +119,9 @@ func genSym(sq []int) func(e *emitter, i int) {
 				if !e.keep(e.div(kSym, 2, 2)) {
 					continue
 				}
-				idx := make([]int, n)
-				for t := range idx {
-					idx[t] = (t*3 + 1) % na
+				for _, idx := range indexClasses(n, na) {
+					e.run(mSymSubset, recv, []opnd{al}, caseSpec{idx: idx})
 				}
-				e.run(mSymSubset, recv, []opnd{al}, caseSpec{idx: idx})
 			}
 		}
 		// CopySym from a symmetric view of another size
@@ -213,4 +220,58 @@ func runSymTri(c *vrt.Ctx, u *universe) {
 	family(c, u, "sym", len(sq), genSym(sq))
 	family(c, u, "tri.upper", len(sq), genTri(sq, kTriU))
 	family(c, u, "tri.lower", len(sq), genTri(sq, kTriL))
+}
+
+// indexClasses returns hostile index sets of length n into [0,na): identity
+// prefix, reversed, constant (first / last), sorted with repeats (two
+// variants), a stride map with repeats, and rotated.
+func indexClasses(n, na int) [][]int {
+	mk := func(f func(t int) int) []int {
+		s := make([]int, n)
+		for t := range s {
+			s[t] = f(t)
+		}
+		return s
+	}
+	return [][]int{
+		mk(func(t int) int { return t % na }),
+		mk(func(t int) int { return na - 1 - t%na }),
+		mk(func(t int) int { return 0 }),
+		mk(func(t int) int { return na - 1 }),
+		mk(func(t int) int { return (t / 2) % na }),
+		mk(func(t int) int { return ((t + 1) / 2) % na }),
+		mk(func(t int) int { return (t*3 + 1) % na }),
+		mk(func(t int) int { return (t + 1) % na }),
+	}
+}
+
+// forAllIndexSets calls f with every index set of length n into [0,na), in
+// lexicographic order; hostile marks the sets that are also in indexClasses.
+func forAllIndexSets(n, na int, f func(set []int, hostile bool)) {
+	hostile := map[string]bool{}
+	key := func(s []int) string {
+		b := make([]byte, len(s))
+		for i, v := range s {
+			b[i] = byte(v)
+		}
+		return string(b)
+	}
+	for _, c := range indexClasses(n, na) {
+		hostile[key(c)] = true
+	}
+	set := make([]int, n)
+	for {
+		f(set, hostile[key(set)])
+		i := n - 1
+		for ; i >= 0; i-- {
+			set[i]++
+			if set[i] < na {
+				break
+			}
+			set[i] = 0
+		}
+		if i < 0 {
+			return
+		}
+	}
 }
